@@ -42,7 +42,7 @@ fn lin(m: &Matrix4<f32>, i: usize, x: f32, y: f32, z: f32) -> f32 {
     m[(i, 0)] * x + m[(i, 1)] * y + m[(i, 2)] * z
 }
 
-harness!(c14_q_tf_point, {
+harness!(c14_t_tf_point, {
     let m = lat_mat::<8>();
     let (x, y, z) = (latx::<16>(), latx::<16>(), latx::<16>());
     let w = row(&m, 3, x, y, z);
@@ -61,7 +61,7 @@ fn lat_box<const K: i16>() -> (Interval, f32) {
     (Interval::new(a, b), p)
 }
 
-harness!(c14_q_tf_interval, {
+harness!(c14_x_tf_interval, {
     let m = lat_mat::<8>();
     let ((ix, px), (iy, py), (iz, pz)) = (lat_box::<8>(), lat_box::<8>(), lat_box::<8>());
     let w = row(&m, 3, px, py, pz);
@@ -75,7 +75,7 @@ harness!(c14_q_tf_interval, {
     kani::cover!(!oz.has_nan() && m[(3, 1)] != 0.0);
 });
 
-harness!(c14_q_tf_grad, {
+harness!(c14_x_tf_grad, {
     let m = lat_mat::<8>();
     let (x, y, z) = (latx_grad::<8>(), latx_grad::<8>(), latx_grad::<8>());
     let w = row(&m, 3, x.v, y.v, z.v);
@@ -97,3 +97,94 @@ harness!(c14_q_tf_grad, {
     kani::cover!(w == 2.0 && wdx != 0.0 && i == 1);
     kani::cover!(w == 0.5 && m[(3, 0)] == 0.0 && m[(3, 1)] == 0.0 && m[(3, 2)] == 0.0);
 });
+
+// ---- quick tier: the same obligations with the symbolic part of the matrix split in two classes (the full 16-entry
+// versions above need > 10 min each under CBMC):
+//   A_i: row i of the upper 3x4 block symbolic, the other upper rows those of the identity, bottom row (0, 0, 0, w)
+//   B:   upper block = identity, all four entries of the projective bottom row symbolic
+fn ident() -> Matrix4<f32> {
+    // (Matrix4::identity() runs a 16-step iterator loop, beyond the unwind bound)
+    Matrix4::new(1.0, 0.0, 0.0, 0.0, 0.0, 1.0, 0.0, 0.0, 0.0, 0.0, 1.0, 0.0, 0.0, 0.0, 0.0, 1.0)
+}
+fn mat_a(i: usize) -> Matrix4<f32> {
+    mat_ak::<8>(i)
+}
+fn mat_ak<const K: i16>(i: usize) -> Matrix4<f32> {
+    let mut m = ident();
+    m[(i, 0)] = latx::<K>();
+    m[(i, 1)] = latx::<K>();
+    m[(i, 2)] = latx::<K>();
+    m[(i, 3)] = latx::<K>();
+    let w = latx::<16>();
+    kani::assume(pow2(w));
+    m[(3, 3)] = w;
+    m
+}
+fn mat_b() -> Matrix4<f32> {
+    let mut m = ident();
+    m[(3, 0)] = latx::<8>();
+    m[(3, 1)] = latx::<8>();
+    m[(3, 2)] = latx::<8>();
+    m[(3, 3)] = latx::<8>();
+    m
+}
+
+fn point_body(m: Matrix4<f32>, i: usize) {
+    let (x, y, z) = (latx::<16>(), latx::<16>(), latx::<16>());
+    let w = row(&m, 3, x, y, z);
+    kani::assume(pow2(w));
+    let (ox, oy, oz) = <f32 as Transformable>::transform(x, y, z, &m);
+    let o = [ox, oy, oz][i];
+    assert!(same_val(o, row(&m, i, x, y, z) / w), "coordinate is not its row of the matrix applied to the position, divided by w");
+    kani::cover!(w == 2.0);
+    kani::cover!(w == 0.5);
+}
+fn interval_body<const K: i16>(m: Matrix4<f32>, i: usize) {
+    let ((ix, px), (iy, py), (iz, pz)) = (lat_box::<K>(), lat_box::<K>(), lat_box::<K>());
+    let w = row(&m, 3, px, py, pz);
+    kani::assume(pow2(w));
+    let (ox, oy, oz) = <Interval as Transformable>::transform(ix, iy, iz, &m);
+    let o = [ox, oy, oz][i];
+    assert!(encloses(o, row(&m, i, px, py, pz) / w), "transformed box does not contain the transformed point");
+    kani::cover!(!o.has_nan() && w == 2.0 && ix.lower() < ix.upper());
+    kani::cover!(!o.has_nan() && w == 0.5);
+}
+fn grad_body(m: Matrix4<f32>, i: usize) {
+    let (x, y, z) = (latx_grad::<8>(), latx_grad::<8>(), latx_grad::<8>());
+    let w = row(&m, 3, x.v, y.v, z.v);
+    kani::assume(w == 0.5 || w == 1.0 || w == 2.0 || w == -1.0 || w == -2.0);
+    let (ox, oy, oz) = <Grad as Transformable>::transform(x, y, z, &m);
+    let o = [ox, oy, oz][i];
+    let n = row(&m, i, x.v, y.v, z.v);
+    assert!(same_val(o.v, n / w), "value lane is not the transformed position");
+    let (ndx, wdx) = (lin(&m, i, x.dx, y.dx, z.dx), lin(&m, 3, x.dx, y.dx, z.dx));
+    let (ndy, wdy) = (lin(&m, i, x.dy, y.dy, z.dy), lin(&m, 3, x.dy, y.dy, z.dy));
+    let (ndz, wdz) = (lin(&m, i, x.dz, y.dz, z.dz), lin(&m, 3, x.dz, y.dz, z.dz));
+    assert!(same_val(o.dx, (ndx * w - n * wdx) / (w * w)), "d/dx lane is not the derivative of the transformed position");
+    assert!(same_val(o.dy, (ndy * w - n * wdy) / (w * w)), "d/dy lane is not the derivative of the transformed position");
+    assert!(same_val(o.dz, (ndz * w - n * wdz) / (w * w)), "d/dz lane is not the derivative of the transformed position");
+    kani::cover!(w == 2.0);
+    kani::cover!(w == 0.5);
+}
+fn any_i() -> usize {
+    let i: usize = kani::any();
+    kani::assume(i < 3);
+    i
+}
+harness!(c14_q_tfa0_point, { point_body(mat_a(0), 0) });
+harness!(c14_q_tfa1_point, { point_body(mat_a(1), 1) });
+harness!(c14_q_tfa2_point, { point_body(mat_a(2), 2) });
+harness!(c14_q_tfb_point, { point_body(mat_b(), any_i()) });
+// quick: lattice |k| <= 3 for the box and the symbolic row (about 1-2 min each); thorough: |k| <= 8 (about 7 min each)
+harness!(c14_q_tfa0_interval, { interval_body::<3>(mat_ak::<3>(0), 0) });
+harness!(c14_q_tfa1_interval, { interval_body::<3>(mat_ak::<3>(1), 1) });
+harness!(c14_q_tfa2_interval, { interval_body::<3>(mat_ak::<3>(2), 2) });
+harness!(c14_t_tfa0_interval, { interval_body::<8>(mat_a(0), 0) });
+harness!(c14_t_tfa1_interval, { interval_body::<8>(mat_a(1), 1) });
+harness!(c14_t_tfa2_interval, { interval_body::<8>(mat_a(2), 2) });
+// (projective bottom row for boxes: > 10 min, not run)
+harness!(c14_x_tfb_interval, { interval_body::<8>(mat_b(), any_i()) });
+harness!(c14_q_tfa0_grad, { grad_body(mat_a(0), 0) });
+harness!(c14_q_tfa1_grad, { grad_body(mat_a(1), 1) });
+harness!(c14_q_tfa2_grad, { grad_body(mat_a(2), 2) });
+harness!(c14_q_tfb_grad, { grad_body(mat_b(), any_i()) });
